@@ -35,7 +35,14 @@ RULE = ("values: random trees 1..7 nodes (uniform/chain/star/spider/binaryish/ca
         "exact regime ({0,+-1,+-i}, ==) and random complex (1e-10); tensor products on 0..N sites, non-Hermitian. "
         "legs: all neighbour orders x next for <= 4 neighbours (thorough: <= 5) + random ones up to 7, real helpers on "
         "distinct-prime dimensions. non-trivial = reference value != 0 on a tree with >= 2 nodes, or a legs case with "
-        ">= 2 neighbours and a bra/operator order different from the ket order")
+        ">= 2 neighbours and a bra/operator order different from the ket order. "
+        "input-space audit axes (values): element type (real float64 / int64 / complex64 / read-only strided views, "
+        "mixed with a complex bra), identifier schemes with prefixes and _ket/_bra substrings, histories of public "
+        "mutators before the queries (normalise, apply_operator, absorb_into_open_legs, centre moves, "
+        "re-canonicalisation, repeated queries), magnitudes 1e-8..1e+8 also on canonical states and on the operator; "
+        "get_equivalent_legs with ignore_legs as None / omitted / str on identifiers that are substrings of each other; "
+        "nb1: contract_neighbour_block_to_ket/_to_hamiltonian directly with the default and an explicit leg; "
+        "single: single_node_expectation_value with and without the optional bra")
 PARTIAL = [
     "value level: that the sum over the bound index pairs equals the dense inner product / <psi|O|psi> (finite-sum "
     "algebra, NumPy tensordot semantics) is trusted and decided per input by the dense oracle, not proved in Lean; "
@@ -50,6 +57,23 @@ PARTIAL = [
 ]
 ASSUMPTIONS = ["NumPy tensordot/transpose/reshape/vdot semantics", "dense contraction by tensordot over labelled legs",
                "float arithmetic on Gaussian integers below 2^53 is exact"]
+
+# ---------------------------------------------------------------------------------------------------------------------
+# PENDING FINDINGS (input-space audit).  Behaviour of the UNCHANGED /repo that violates the property on inputs the
+# audit added; reported to the coordinator, not yet repaired in /repo nor recorded in known_findings.json.  While an
+# entry is present the named routes are not judged on the named inputs (they are tallied under `pending_finding`);
+# delete the entry to arm the check.
+PENDING_FINDINGS = {
+    "P-C04-norm-single": {
+        "inputs": "a state with complex64 (single precision) tensors and no orthogonality centre recorded, e.g. two "
+                  "nodes a(3,2)-b(3,2) with random complex64 entries (notes/C04.md, 'Input-space audit', script)",
+        "message": "norm(): raised AssertionError (ttns.py: `assert abs(scal_prod.imag) <= 1e-10 * max(1.0, "
+                   "abs(scal_prod.real))`; the imaginary part of <psi|psi> is single-precision round-off, ~1e-7 relative)",
+        "disabled": "routes 'norm() ...' and the history operations query / normalise (both call norm()) with "
+                    "dtype == 'single' when the call raises AssertionError",
+    },
+}
+# ---------------------------------------------------------------------------------------------------------------------
 
 MODES = ["REDUCED", "FULL", "KEEP"]
 MAX_DENSE = 216          # cap on the Hilbert-space dimension (dense operator is MAX_DENSE^2)
@@ -76,7 +100,7 @@ def _adj(par):
     return adj
 
 
-def _exact_iso_state(rng, nprng, par, open_dims, centre, small_int):
+def _exact_iso_state(rng, nprng, par, open_dims, centre, small_int, names=None):
     """A state that is exactly canonical at `centre`: every other tensor is an isometry toward the centre
     whose non-zero entries are phases in {1,-1,i,-i} (one per column, in distinct rows)."""
     from pytreenet.ttns.ttns import TreeTensorNetworkState
@@ -125,9 +149,48 @@ def _exact_iso_state(rng, nprng, par, open_dims, centre, small_int):
         cur = in_legs + [out_leg]
         tensors[x] = np.transpose(t, [cur.index(l) for l in legs])
     ttns, canon, att, names = gen.build_network(TreeTensorNetworkState, par, bond, open_dims, rng, nprng,
-                                                order=order, tensors=tensors)
+                                                order=order, tensors=tensors, names=names)
     ttns.orthogonality_center_id = names[centre]
     return ttns, names
+
+
+# Identifier schemes (input-space audit): identifiers that are prefixes / substrings of each other and identifiers that
+# contain the suffixes the density-operator code uses.  "default" = n0..n6 (never a prefix of another one).
+NAME_SCHEMES = {
+    "default": None,
+    "prefix": ["n1", "n10", "n11", "n100", "n101", "n110", "n1000"],
+    "suffix": ["s", "s_ket", "s_bra", "s_ket_bra", "ket", "bra_s", "s_"],
+}
+# Element types (input-space audit).  "c128" = complex128 everywhere (the default of the generators).
+#   real   : ket and operator real float64 (built that way, lazy leg permutations kept), bra complex (mixed types)
+#   int    : ket and operator int64 (exact regime only), bra complex
+#   single : complex64 everywhere (tolerance widened to single precision)
+#   view   : every tensor a READ-ONLY, non-contiguous strided view into a larger buffer
+DTYPES = ["c128", "real", "int", "single", "view"]
+SINGLE_TOL = 2e-4
+
+
+def _names_of(case, n):
+    pool = NAME_SCHEMES.get(case.get("names", "default"))
+    return None if pool is None else {i: pool[i] for i in range(n)}
+
+
+def _convert(ttn, how):
+    for nid in list(ttn.nodes):
+        t = np.asarray(ttn.tensors[nid])
+        if how == "int":
+            t2 = np.rint(t.real).astype(np.int64)
+        elif how == "single":
+            t2 = t.astype(np.complex64)
+        elif how == "view":
+            big = np.zeros(tuple(2 * s for s in t.shape), dtype=t.dtype)
+            sl = tuple(slice(1, None, 2) for _ in t.shape)
+            big[sl] = t
+            t2 = big[sl] if t.ndim else big
+            t2.flags.writeable = False
+        else:
+            raise ValueError(how)
+        ttn.replace_tensor(nid, t2)
 
 
 def _make_values(case):
@@ -140,41 +203,120 @@ def _make_values(case):
     open_dims = _phys_dims(rng, n)
     from pytreenet.ttns.ttns import TreeTensorNetworkState
     gauge = case["gauge"]
+    dt = case.get("dtype", "c128")
+    nm = _names_of(case, n)
+    real = dt in ("real", "int")
     bonds = (1, 2, 2, 3)
     if gauge == "exactiso":
         centre = rng.randrange(n)
-        psi, names = _exact_iso_state(rng, nprng, par, open_dims, centre, exact)
+        psi, names = _exact_iso_state(rng, nprng, par, open_dims, centre, exact, names=nm)
     else:
         psi, _, _, names = gen.build_network(TreeTensorNetworkState, par, gen.random_bonds(rng, par, bonds),
-                                             open_dims, rng, nprng, small_int=exact)
+                                             open_dims, rng, nprng, small_int=exact, names=nm, complex_=not real)
+        if dt in ("int", "single", "view"):
+            _convert(psi, dt)
         if gauge in MODES:
             mode = getattr(SplitMode, gauge)
             ids = sorted(psi.nodes)
             psi.canonical_form(rng.choice(ids), mode=mode)
             for _ in range(case.get("moves", 0)):
                 psi.move_orthogonalization_center(rng.choice(ids), mode=mode)
+    if gauge == "exactiso" and dt in ("single", "view"):
+        _convert(psi, dt)               # phases are exact in complex64; the recorded centre stays valid
     phi, _, _, _ = gen.build_network(TreeTensorNetworkState, par, gen.random_bonds(rng, par, bonds),
-                                     open_dims, rng, nprng, small_int=exact)
+                                     open_dims, rng, nprng, small_int=exact, names=nm)
     ttno, _ = gen.random_ttno_like(rng, nprng, par, {i: open_dims[i][0] for i in range(n)},
-                                   bonds=(1, 2, 3) if n <= 5 else (1, 2, 2), small_int=exact)
+                                   bonds=(1, 2, 3) if n <= 5 else (1, 2, 2), small_int=exact, names=nm,
+                                   complex_=not real)
+    if dt in ("single", "view"):
+        _convert(phi, dt)
+    if dt in ("int", "single", "view"):
+        _convert(ttno, dt)
     mag = case.get("mag", 0)
     if mag and not exact:
         # very large / very small unnormalised states: absolute tolerances inside the library are failing inputs.
-        # phi is never canonical; psi is rescaled only when no centre is recorded (replace_tensor keeps the gauge
-        # bookkeeping of the library out of the picture).
-        targets = [phi] + ([psi] if psi.orthogonality_center_id is None else [])
-        for st in targets:
-            f = 10.0 ** (mag / len(st.nodes))
-            for nid in list(st.nodes):
-                st.replace_tensor(nid, np.asarray(st.tensors[nid]) * f)
+        # phi is never canonical; a psi with a recorded centre is rescaled at the centre only (the gauge stays valid:
+        # the shortcuts see the magnitude), otherwise on every tensor.
+        for st in (phi, psi):
+            c = st.orthogonality_center_id
+            f = 10.0 ** (mag / (1 if c is not None else len(st.nodes)))
+            for nid in ([c] if c is not None else list(st.nodes)):
+                t = np.asarray(st.tensors[nid])
+                st.replace_tensor(nid, (t * f).astype(t.dtype))
+        if case.get("mag_op"):
+            t = np.asarray(ttno.tensors[ttno.root_id])
+            ttno.replace_tensor(ttno.root_id, (t * 10.0 ** case["mag_op"]).astype(t.dtype))
     return rng, nprng, psi, phi, ttno, names
+
+
+def _apply_history(case, psi, rng, nprng, probs, ctx):
+    """Public mutators interleaved before the queries (input-space audit: histories).  Every query afterwards is judged
+    against the dense vector of the state AS IT IS NOW; the mutators' own documented effect is judged here."""
+    from pytreenet.operators.tensorproduct import TensorProduct
+    from pytreenet.util.tensor_splitting import SplitMode
+    exact = case["exact"]
+    order = sorted(psi.nodes)
+    dims = dense.phys_dims(psi, order)
+    dimof = dict(zip(order, dims))
+    tol = SINGLE_TOL if case.get("dtype") == "single" else 1e-10
+    for op in case.get("pre", []):
+        if op not in ("normalise", "apply", "absorb", "move", "canon", "query"):
+            raise ValueError(op)
+        if exact and op not in ("apply", "absorb", "query"):
+            continue                    # not exact in floating point (only reachable through the shrinker)
+        v0 = np.array(dense.ttns_vector(psi, order))        # a copy: for a single node the vector is a view
+        n0 = float(np.linalg.norm(v0))
+        ctx.tally("history_op", op + ("/centre recorded" if psi.orthogonality_center_id is not None else "/no centre"))
+        try:
+            if op == "normalise":
+                if n0 == 0:
+                    continue
+                r = psi.normalise()
+                v1 = dense.ttns_vector(psi, order)
+                if not abs(complex(r) - n0) <= tol * n0:
+                    probs.append(f"history normalise(): returned {r!r}, dense norm before was {n0!r}")
+                if not np.linalg.norm(v1 - v0 / n0) <= max(tol, 1e-9):
+                    probs.append("history normalise(): the new vector is not the old one divided by its norm")
+            elif op in ("apply", "absorb"):
+                k = 1 if op == "absorb" else rng.randint(1, len(order))
+                sites = rng.sample(order, k)
+                ops = {s: gen.rand_tensor(nprng, (dimof[s], dimof[s]), True, exact) for s in sites}
+                if op == "absorb":
+                    psi.absorb_into_open_legs(sites[0], ops[sites[0]])
+                else:
+                    psi.apply_operator(TensorProduct(dict(ops)))
+                M = dense.embed_ops(ops, order, dims)
+                v1 = dense.ttns_vector(psi, order)
+                ref = M @ v0
+                bad = (not np.array_equal(v1, ref)) if exact else \
+                    (np.linalg.norm(v1 - ref) > tol * max(float(np.linalg.norm(M)) * n0, 1e-300))
+                if bad:
+                    probs.append(f"history {op}: the new vector is not (operator x identities) applied to the old one")
+            elif op == "move":
+                if psi.orthogonality_center_id is not None:
+                    psi.move_orthogonalization_center(rng.choice(order), mode=SplitMode.REDUCED)
+            elif op == "canon":
+                psi.canonical_form(rng.choice(order), mode=SplitMode.REDUCED)
+            elif op == "query":
+                psi.norm()
+                psi.scalar_product()
+        except Exception as e:      # noqa: BLE001
+            if op in ("move", "canon"):
+                ctx.tally("setup_skipped", "history " + type(e).__name__)   # C03's subject
+                continue
+            if ("P-C04-norm-single" in PENDING_FINDINGS and case.get("dtype") == "single"
+                    and op in ("query", "normalise") and isinstance(e, AssertionError)):
+                ctx.tally("pending_finding", "P-C04-norm-single")
+                continue
+            probs.append(f"history {op}: raised {type(e).__name__}: {str(e)[:120]}")
 
 
 class _Cmp:
     """Comparison in one of the two regimes."""
 
-    def __init__(self, exact):
+    def __init__(self, exact, tol=1e-10):
         self.exact = exact
+        self.tol = tol
 
     def bad(self, got, ref, scale):
         try:
@@ -184,7 +326,7 @@ class _Cmp:
         ref = complex(ref)
         if self.exact:
             return not (got == ref)
-        return not (abs(got - ref) <= 1e-10 * max(scale, 1e-300))
+        return not (abs(got - ref) <= self.tol * max(scale, 1e-300))
 
 
 def _child_orders_differ(a, b):
@@ -202,8 +344,13 @@ def _case_values(ctx, case):
             return
         raise
     exact = case["exact"]
-    cmp = _Cmp(exact)
+    dt = case.get("dtype", "c128")
+    tol = SINGLE_TOL if dt == "single" else 1e-10
+    cmp = _Cmp(exact, tol)
     n = len(case["par"])
+    probs = []
+    if case.get("pre"):
+        _apply_history(case, psi, rng, nprng, probs, ctx)
     order = sorted(psi.nodes)
     dims = dense.phys_dims(psi, order)
     v = dense.ttns_vector(psi, order)
@@ -213,11 +360,15 @@ def _case_values(ctx, case):
     tag = f"{'exact' if exact else 'float'}/{case['gauge']}"
     ctx.tally("nodes", n)
     ctx.tally("regime_gauge", tag)
-    ctx.tally("magnitude_exponent", case.get("mag", 0))
+    ctx.tally("magnitude_exponent", f"{case.get('mag', 0)}" + ("/centre recorded" if centre is not None and
+                                                                  case.get("mag", 0) else ""))
+    ctx.tally("element_type", dt)
+    ctx.tally("identifier_scheme", case.get("names", "default"))
+    ctx.tally("history_length", len(case.get("pre", [])))
+    ctx.tally("state_vector_is_zero", nv == 0)
     ctx.tally("child_orders_ket_vs_bra_differ", _child_orders_differ(psi, phi))
     ctx.tally("child_orders_ket_vs_op_differ", _child_orders_differ(psi, ttno))
     ctx.sample(case, 3)
-    probs = []
 
     def check(route, fn, ref, scale, nontrivial=True):
         ctx.tally("route", route)
@@ -226,6 +377,10 @@ def _case_values(ctx, case):
         try:
             got = fn()
         except Exception as e:      # noqa: BLE001
+            if ("P-C04-norm-single" in PENDING_FINDINGS and dt == "single" and route.startswith("norm()")
+                    and isinstance(e, AssertionError)):
+                ctx.tally("pending_finding", "P-C04-norm-single")
+                return
             probs.append(f"{route}: raised {type(e).__name__}: {str(e)[:160]}")
             return
         if cmp.bad(got, ref, scale):
@@ -240,6 +395,8 @@ def _case_values(ctx, case):
           lambda: psi.scalar_product(), n2, nv * nv)
     check("scalar_product(use_orthogonal_center=False)",
           lambda: psi.scalar_product(use_orthogonal_center=False), n2, nv * nv)
+    check("scalar_product(other, use_orthogonal_center=False)",
+          lambda: psi.scalar_product(phi, use_orthogonal_center=False), np.vdot(w, v), nv * nw)
     # ---- (b) norm
     ref_norm = math.sqrt(float(n2.real))
 
@@ -301,8 +458,15 @@ def _case_values(ctx, case):
                 probs.append(f"as_matrix: shape {mat.shape} != {refm.shape}")
             elif exact and not np.array_equal(mat, refm):
                 probs.append("as_matrix: differs from the full contraction in the returned order (exact regime)")
-            elif not exact and np.linalg.norm(mat - refm) > 1e-10 * max(onorm, 1e-300):
+            elif not exact and np.linalg.norm(mat - refm) > tol * max(onorm, 1e-300):
                 probs.append("as_matrix: differs from the full contraction in the returned order")
+            # repeated call on the same object, and the operator itself is left as it was
+            mat2, morder2 = ttno.as_matrix()
+            if list(morder2) != list(morder) or mat2.shape != mat.shape or not np.array_equal(mat2, mat):
+                probs.append("as_matrix: a second call on the same TTNO returns something else")
+            O_after = dense.ttno_matrix(ttno, order)
+            if O_after.shape != O.shape or not np.array_equal(O_after, O):
+                probs.append("as_matrix: the TTNO was changed by the call")
     except Exception as e:      # noqa: BLE001
         probs.append(f"as_matrix: raised {type(e).__name__}: {str(e)[:160]}")
     # ---- the queries must not have changed the state
@@ -310,7 +474,8 @@ def _case_values(ctx, case):
     if not (np.array_equal(v, v_after) if exact else np.linalg.norm(v - v_after) <= 1e-12 * max(nv, 1e-300)):
         probs.append("state changed by the queries")
     if probs:
-        ctx.oracle_fail(case, f"[{tag}, n={n}] " + "; ".join(probs[:4]))
+        extra = "".join(f", {k}={case[k]}" for k in ("dtype", "names", "pre", "mag") if case.get(k))
+        ctx.oracle_fail(case, f"[{tag}, n={n}{extra}] " + "; ".join(probs[:4]))
 
 
 # =========================================================================== leg-calculus cases
@@ -416,7 +581,19 @@ def _run_legs_impl(case):
         if fn == "equiv":
             n2 = _mk_node(me, case["bra"], 0)
             trafo = (lambda s: str(int(s) + off)) if off else None
-            l1, l2 = cu.get_equivalent_legs(ket_node, n2, [str(x) for x in case["ignore"]], id_trafo=trafo)
+            ign = [str(x) for x in case["ignore"]]
+            form = case.get("ignore_form", "list")      # how the documented Union[None, List[str], str] is passed
+            if form == "list":
+                l1, l2 = cu.get_equivalent_legs(ket_node, n2, ign, id_trafo=trafo)
+            elif form == "str" and len(ign) == 1:
+                l1, l2 = cu.get_equivalent_legs(ket_node, n2, ign[0], id_trafo=trafo)
+            elif form == "none" and not ign:
+                l1, l2 = cu.get_equivalent_legs(ket_node, n2, None, id_trafo=trafo)
+            elif form == "omitted" and not ign:
+                l1, l2 = (cu.get_equivalent_legs(ket_node, n2, id_trafo=trafo) if trafo else
+                          cu.get_equivalent_legs(ket_node, n2))
+            else:
+                raise ValueError(f"ignore_form {form!r} with ignore {ign}")
             return ("int", (list(l1), list(l2)))
         three = bool(case.get("three", 0)) or fn in ("opany", "oproot")
         cache = PartialTreeCachDict()
@@ -533,8 +710,12 @@ def _case_legs(ctx, case, model_out=None):
                   for k in ("bra", "op"))
     ctx.tally("legs_fn", fn + ("/3-layer" if case.get("three") else "") + ("/ham" if case.get("axis") else ""))
     ctx.tally("legs_neighbours", len(knb))
+    if fn == "equiv":
+        ctx.tally("equiv_ignore_form", case.get("ignore_form", "list"))
+        ids = [str(x) for x in knb]
+        ctx.tally("equiv_ids_prefix_of_each_other", any(a != b and a in b for a in ids for b in ids))
     ctx.tally("legs_outcome", res[0])
-    ctx.count(("legs", legs_line(case), case.get("distinct", True)),
+    ctx.count(("legs", legs_line(case), case.get("distinct", True), case.get("ignore_form", "list")),
               nontrivial=len(knb) >= 2 and (differs or fn in ("allbut", "all", "detidx")), corr=True)
     if model_out == "bad-op":
         ctx.corr_fail(case, f"model rejects the request {legs_line(case)!r}")
@@ -569,6 +750,120 @@ def _case_legs(ctx, case, model_out=None):
                             f"[{model_out}]")
 
 
+# ---- direct entry points judged by einsum alone (no model): one neighbour block, single-node expectation value
+
+def _case_nb1(ctx, case):
+    """contract_neighbour_block_to_ket / _to_hamiltonian called directly, with the documented default
+    tensor_leg_to_neighbour=None (= the node's leg toward the neighbour) and with an explicit leg."""
+    from pytreenet.contractions import contraction_util as cu
+    from pytreenet.contractions.tree_cach_dict import PartialTreeCachDict
+    rng = random.Random(case["seed"])
+    nprng = np.random.default_rng(case["seed"])
+    ket = (case["ket"][0], list(case["ket"][1]))
+    knb = _nbrs(ket)
+    m = len(knb)
+    axis, leg, nb, d = case["axis"], case["leg"], case["nb"], case["dim"]
+    node = _mk_node(1000, ket, 0)
+    rest = [5, 7] if axis == 1 else [5]
+    t = gen.rand_tensor(nprng, [d] * m + rest, True, False)      # every neighbour leg has the same dimension
+    node.link_tensor(t)
+    bshape = [11, 13, 17][:(3 if (axis == 1 or case.get("three")) else 2)]
+    bshape[axis] = d
+    block = gen.rand_tensor(nprng, bshape, True, False)
+    cache = PartialTreeCachDict()
+    cache.add_entry(str(nb), str(1000), block)
+    for other in knb:                  # decoys: entries of the other neighbours must not be touched
+        if other != nb:
+            cache.add_entry(str(other), str(1000), gen.rand_tensor(nprng, bshape, True, False))
+    fn = cu.contract_neighbour_block_to_hamiltonian if axis == 1 else cu.contract_neighbour_block_to_ket
+    ctx.tally("nb1", f"{'hamiltonian' if axis else 'ket'}/leg {'default (None)' if leg is None else 'explicit'}")
+    ctx.count(("nb1", tuple(knb), nb, axis, leg, case["seed"]), nontrivial=m >= 2)
+    try:
+        got = fn(t, node, str(nb), cache) if leg is None else fn(t, node, str(nb), cache, tensor_leg_to_neighbour=leg)
+    except Exception as e:      # noqa: BLE001
+        ctx.oracle_fail(case, f"nb1 {fn.__name__}: raised {type(e).__name__}: {str(e)[:120]}")
+        return
+    eff = knb.index(nb) if leg is None else leg
+    ti = list(range(t.ndim))
+    bi = [20 + k for k in range(block.ndim)]
+    bi[axis] = eff
+    out = [i for i in ti if i != eff] + [i for k, i in enumerate(bi) if k != axis]
+    ref = np.einsum(t, ti, block, bi, out)
+    got = np.asarray(got)
+    if got.shape != ref.shape or np.linalg.norm(got - ref) > 1e-10 * max(float(np.linalg.norm(ref)), 1e-300):
+        ctx.oracle_fail(case, f"nb1 {fn.__name__}(tensor_leg_to_neighbour={leg}): result is not the node tensor "
+                              f"contracted over its leg {eff} (toward neighbour {nb}) with axis {axis} of the block, "
+                              f"legs (tensor legs without it, block legs without that axis)")
+
+
+def gen_nb1_cases(ctx):
+    rng = ctx.subrng("nb1")
+    cases = []
+    for _ in range(ctx.n(120, 1200)):
+        m = rng.randint(1, 5)
+        ids = rng.sample(range(1, 40), m)
+        ket = (ids[0], ids[1:]) if rng.random() < 0.5 else (None, ids)
+        axis = rng.choice([0, 1])
+        nb = rng.choice(ids)
+        leg = None if rng.random() < 0.6 else rng.randrange(m)
+        cases.append({"kind": "nb1", "ket": ket, "nb": nb, "axis": axis, "leg": leg, "dim": rng.choice([2, 3]),
+                      "three": rng.randint(0, 1), "seed": rng.randrange(10 ** 9)})
+    return cases
+
+
+def _case_single(ctx, case):
+    """single_node_expectation_value(node, ket, op, bra_tensor=None): the one-node special case, with and without
+    the optional bra (used as given, like every explicit bra tensor of this module)."""
+    from pytreenet.core.node import Node
+    from pytreenet.contractions.state_operator_contraction import single_node_expectation_value, expectation_value
+    from pytreenet.ttns.ttns import TreeTensorNetworkState
+    from pytreenet.ttno.ttno_class import TreeTensorNetworkOperator
+    nprng = np.random.default_rng(case["seed"])
+    d, exact, cplx = case["d"], case["exact"], case["complex"]
+    ket = gen.rand_tensor(nprng, (d,), cplx, exact)
+    op = gen.rand_tensor(nprng, (d, d), cplx, exact)
+    bra = gen.rand_tensor(nprng, (d,), cplx, exact) if case["bra"] else None
+    if case.get("mag") and not exact:
+        ket = ket * 10.0 ** case["mag"]
+    node = Node(identifier="only")
+    node.link_tensor(ket)
+    b = ket.conj() if bra is None else bra
+    ref = complex(sum(b[i] * op[i, j] * ket[j] for i in range(d) for j in range(d)))
+    scale = float(np.linalg.norm(b) * np.linalg.norm(op) * np.linalg.norm(ket))
+    ctx.tally("single_node", f"bra {'given' if case['bra'] else 'default (None)'}/{'complex' if cplx else 'real'}")
+    ctx.count(("single", d, case["seed"], case["bra"]), nontrivial=d >= 2 and ref != 0)
+    cmp = _Cmp(exact)
+    probs = []
+    try:
+        got = (single_node_expectation_value(node, ket, op) if bra is None else
+               (single_node_expectation_value(node, ket, op, bra) if case["bra"] == 1 else
+                single_node_expectation_value(node, ket, op, bra_tensor=bra)))
+        if np.ndim(got) != 0 or cmp.bad(got, ref, scale):
+            probs.append(f"single_node_expectation_value: library {got!r} != dense {ref!r}")
+    except Exception as e:      # noqa: BLE001
+        probs.append(f"single_node_expectation_value: raised {type(e).__name__}: {str(e)[:120]}")
+    if bra is None:
+        try:
+            st, ho = TreeTensorNetworkState(), TreeTensorNetworkOperator()
+            st.add_root(Node(identifier="only"), ket)
+            ho.add_root(Node(identifier="only"), op)
+            got = expectation_value(st, ho)
+            if cmp.bad(got, ref, scale):
+                probs.append(f"expectation_value on the one-node networks: library {got!r} != dense {ref!r}")
+        except Exception as e:      # noqa: BLE001
+            probs.append(f"expectation_value on the one-node networks: raised {type(e).__name__}: {str(e)[:120]}")
+    if probs:
+        ctx.oracle_fail(case, "; ".join(probs))
+
+
+def gen_single_cases(ctx):
+    rng = ctx.subrng("single")
+    return [{"kind": "single", "d": rng.choice([1, 2, 2, 3, 4, 6]), "exact": rng.random() < 0.5,
+             "complex": rng.random() < 0.75, "bra": rng.choice([0, 1, 2]), "seed": rng.randrange(10 ** 9),
+             "mag": rng.choice([0, 0, 0, 8, -8])}
+            for _ in range(ctx.n(60, 600))]
+
+
 def _perms_of(lst, rng, limit):
     import itertools
     ps = list(itertools.permutations(lst))
@@ -587,6 +882,10 @@ def gen_legs_cases(ctx):
         for has_parent in ([False] if m == 0 else [False, True]):
             ket = (ids[0], ids[1:]) if has_parent else (None, ids)
             shapes.append((ket, True, 24))
+    for m in (2, 3, 4, 5):                          # identifiers that are substrings of each other ("1" in "12")
+        ids = rng.sample([1, 11, 12, 2, 21, 121, 112], m)
+        ket = (ids[0], ids[1:]) if rng.random() < 0.5 else (None, ids)
+        shapes.append((ket, m <= 3, 6))
     for _ in range(ctx.n(80, 800)):                # larger random ones, small (also equal / unit) dimensions
         m = rng.randint(3, 6)
         ids = rng.sample(range(1, 60), m)
@@ -624,6 +923,11 @@ def gen_legs_cases(ctx):
             ign_sets = [[]] + [[x] for x in knb[:2]]
             for ign in ign_sets:
                 cases.append(dict(base, fn="equiv", bra=bra, ignore=ign, off=off))
+                # the other documented spellings of `ignore_legs`: None / omitted / a single identifier as str
+                cases.append(dict(base, fn="equiv", bra=bra, ignore=ign, off=off,
+                                  ignore_form=("str" if ign else rng.choice(["none", "omitted"]))))
+            for x in knb[2:]:
+                cases.append(dict(base, fn="equiv", bra=bra, ignore=[x], off=off, ignore_form="str"))
             for nxt in knb:
                 cases.append(dict(base, fn="any", bra=bra, next=nxt, off=off))
         if m <= 5:
@@ -1033,6 +1337,7 @@ def gen_heff_cases(ctx):
 
 def gen_cases(ctx):
     rng = ctx.rng
+    arng = ctx.subrng("audit-values")
     cases = []
     nvals = ctx.n(700, 8000)
     for k in range(nvals):
@@ -1043,9 +1348,28 @@ def gen_cases(ctx):
             gauge = rng.choice(["none", "none", "exactiso"])
         else:
             gauge = rng.choice(["none", "none", "REDUCED", "FULL", "KEEP", "exactiso"])
-        cases.append({"kind": "values", "par": gen.random_parent_array(rng, n, kind),
-                      "seed": rng.randrange(10 ** 9), "exact": exact, "gauge": gauge, "moves": rng.randint(0, 3),
-                      "mag": 0 if exact else rng.choice([0, 0, 0, 0, 6, 8, -6])})
+        case = {"kind": "values", "par": gen.random_parent_array(rng, n, kind),
+                "seed": rng.randrange(10 ** 9), "exact": exact, "gauge": gauge, "moves": rng.randint(0, 3),
+                "mag": 0 if exact else rng.choice([0, 0, 0, 0, 6, 8, -6, -8])}
+        # ---- input-space audit axes (separate generator stream: the cases above stay what they were)
+        if case["mag"] and arng.random() < 0.4:
+            case["mag_op"] = arng.choice([-8, 6, 8])
+        r = arng.random()
+        if r < 0.30:
+            if gauge == "exactiso":
+                case["dtype"] = arng.choice(["single", "view"])
+            elif exact:
+                case["dtype"] = arng.choice(["real", "int", "int", "single", "view"])
+            else:
+                case["dtype"] = arng.choice(["real", "real", "single", "view"])
+        if arng.random() < 0.25:
+            case["names"] = arng.choice(["prefix", "suffix"])
+        if arng.random() < 0.30:
+            ops = ["apply", "absorb", "query"] if exact else ["apply", "absorb", "query", "normalise", "move", "canon"]
+            if case.get("dtype") == "view":
+                ops = [o for o in ops if o != "normalise"]      # in-place division of a read-only buffer
+            case["pre"] = [arng.choice(ops) for _ in range(arng.randint(1, 3))]
+        cases.append(case)
     return cases
 
 
@@ -1070,7 +1394,7 @@ def run(ctx):
         if ctx.time_left() < 0:
             break
         _case_tree(ctx, c, mo)
-    for c in gen_cases(ctx):
+    for c in gen_nb1_cases(ctx) + gen_single_cases(ctx) + gen_cases(ctx):
         if ctx.time_left() < 0:
             break
         run_case(ctx, c)
@@ -1092,6 +1416,10 @@ def run_heff(ctx):
 def run_case(ctx, case):
     if case.get("kind") == "values":
         _case_values(ctx, case)
+    elif case.get("kind") == "nb1":
+        _case_nb1(ctx, case)
+    elif case.get("kind") == "single":
+        _case_single(ctx, case)
     elif case.get("kind") == "tree":
         _case_tree(ctx, case)
     elif case.get("kind") == "heff":
@@ -1154,5 +1482,12 @@ def shrink(case):
         yield dict(case, gauge="none")
     if case.get("moves", 0) > 0:
         yield dict(case, moves=case["moves"] - 1)
-    if not case["exact"]:
-        yield dict(case, exact=True, gauge="none" if case["gauge"] in MODES else case["gauge"])
+    for k in ("pre", "names", "dtype", "mag_op"):
+        if case.get(k):
+            yield {kk: vv for kk, vv in case.items() if kk != k}
+    if len(case.get("pre", [])) > 1:
+        for i in range(len(case["pre"])):
+            yield dict(case, pre=case["pre"][:i] + case["pre"][i + 1:])
+    if not case["exact"] and case.get("dtype") in (None, "c128", "view"):
+        yield dict(case, exact=True, mag=0, gauge="none" if case["gauge"] in MODES else case["gauge"],
+                   pre=[o for o in case.get("pre", []) if o in ("apply", "absorb", "query")])
